@@ -156,8 +156,11 @@ def run_and_validate(ctx, scenarios, tag, bound=None, batch=12, module="Trace_Ra
                 sched = s.get("meta", {}).get("schedule")
                 fl = lambda m: flag == m.get("flag") or flag in (m.get("flags") or [])
                 # a finding recorded for this forced schedule first, then the ones recorded for the flag alone
-                kf = (ctx.known_matching(lambda m: m.get("kind") == "flag" and fl(m) and sched and m.get("schedule") == sched)
-                      or ctx.known_matching(lambda m: m.get("kind") == "flag" and fl(m) and "schedule" not in m))
+                # (a finding recorded for one or several forced schedules is only recognised there: the same flag anywhere
+                #  else is a violation)
+                kf = (ctx.known_matching(lambda m: m.get("kind") == "flag" and fl(m) and sched
+                                         and (m.get("schedule") == sched or sched in (m.get("schedules") or [])))
+                      or ctx.known_matching(lambda m: m.get("kind") == "flag" and fl(m) and "schedule" not in m and "schedules" not in m))
                 summary.setdefault("flags", {}).setdefault(flag, []).append(sid)
                 if kf:
                     ctx.known_finding(kf, what)
